@@ -79,6 +79,8 @@ func main() {
 	switch os.Args[1] {
 	case "check":
 		os.Exit(cmdCheck(os.Args[2:]))
+	case "selftest":
+		os.Exit(cmdSelftest())
 	default:
 		fmt.Println("unknown command", os.Args[1])
 		os.Exit(2)
